@@ -167,7 +167,9 @@ def run_histories(tier, seed, tofu_modes=(True, False)):
                     before = read_rows(path)
                     if st[0] == "call":
                         _, op, host, port, der, resp, exc, content, token = st
-                        url = "gemini://%s%s/p?q=1" % (host, "" if port == 1965 else ":%d" % port)
+                        # host names are case-insensitive: the URL may spell the host in any letter case, the pin is the host's
+                        spelled = rng.choice([host, host, host.upper(), host.title(), "".join(c.upper() if i % 2 else c for i, c in enumerate(host))])
+                        url = "gemini://%s%s/p?q=1" % (spelled, "" if port == 1965 else ":%d" % port)
                         trace = []
                         hname = host[1:-1] if host.startswith("[") else host
                         pinned = [r for r in before if r[0] == hname and r[1] == port]
